@@ -28,7 +28,7 @@ THEOREMS = [
     'C15.index_normalisation', 'C15.index_negative',
     'C15.refuse_absent_site', 'C15.refuse_ambiguous_site', 'C15.refuse_occupied_interstitial', 'C15.refuse_same_type',
     'C15.refuse_index_out_of_range', 'C15.refuse_both_or_neither', 'C15.refusals_propagate',
-    'C15.point_dispatch', 'C15.input_unchanged',
+    'C15.point_dispatch', 'C15.input_unchanged_partial',
     'C15.atol_resolution', 'C15.point_atol_passthrough', 'C15.within_iff', 'C15.within_tie', 'C15.within_zero_tol',
     'C15.within_mono', 'C15.zero_tol_offsite', 'C15.symbols_masses_kept',
     'C15.resolve_pos_iff_unique', 'C15.interstitial_ok_iff_free',
@@ -57,6 +57,9 @@ THEOREMS = [
     'C15.loop_branches_commute', 'C15.float_index_class', 'C15.float_index_range_agrees', 'C15.float_index_refused',
 ]
 PARTIAL = {
+    'the input system is untouched': 'input_unchanged_partial is `rfl` (the model is a pure function, so there is nothing to '
+    'prove in Lean); the clause is decided on the implementation only: snapshot of arrays and instance dictionaries, memory walk, '
+    'repeat-and-scribble probe, same-object sequences (correspondence / oracle), not by a theorem',
     'periodic image beyond the adjacent cells': 'pos_eq_index_selection is proved for a position that is the atom '
     'shifted by n in {-1,0,1}^3 cell vectors along periodic directions, which is exactly the candidate set of '
     'dvect_c; a position two or more cells away is refused by the code (model and implementation agree) - also in a '
